@@ -17,7 +17,7 @@ ASSUME = [
     "backend simulator semantics of DESIGN.md 1.1 (Attempt = number of recorded retries; timers fire lazily; permissive)",
     "single total order of events: every probe event is a synchronous RPC to the single-threaded parent",
     "virtual clock dilation K=50 with polling timeouts divided by K (a K=1 slice runs in the thorough tier)",
-    "CPython 3.12, fork-per-invocation; a crash is SIGKILL of the invocation process",
+    "CPython 3.12, fork-per-invocation (cold start) or, in the warm slices, one forked process serving all invocations of an execution; a crash is SIGKILL of the process",
 ]
 
 
@@ -77,14 +77,18 @@ class Spec:
             i += 1
         for j in range(n.get("plain", 0)):
             rng = random.Random(base + i)
-            yield {"label": "plain", "prog_seed": base + i, "gen": self.gen, "pattern": {"p": "plain"},
+            yield {"label": "plain" if j % 3 != 2 else "plain-warm", "prog_seed": base + i, "gen": self.gen, "pattern": {"p": "plain"},
                    "pages": rng.choice([{}, {"first_page": 1, "page_size": 1}, {"first_page": 2, "page_size": 3},
                                         {"first_page": 1, "page_size": 50, "resp_page": 1}, {"first_page": 0, "page_size": 2},
                                         {"resp_page": 2}]),
-                   "latency_ms": rng.choice([None, None, (0, 3)])}
+                   "latency_ms": rng.choice([None, None, (0, 3)]),
+                   # every third uninterrupted run is served by ONE warm sandbox: the same process (module state, caches, pools, the
+                   # decorated handler object) handles every invocation of the execution, as a reused Lambda environment does
+                   "opts": {"warm": True} if j % 3 == 2 else {}}
             i += 1
         for j in range(n.get("rand", 0)):
-            yield {"label": "crash-random", "prog_seed": base + i, "gen": self.gen, "pattern": {"p": "crash_random", "n": 1 + j % 3}}
+            yield {"label": "crash-random" if j % 3 != 1 else "crash-random-warm", "prog_seed": base + i, "gen": self.gen, "pattern": {"p": "crash_random", "n": 1 + j % 3},
+                   "opts": {"warm": True} if j % 3 == 1 else {}}
             i += 1
         for j in range(n.get("async", 0)):
             yield {"label": "async-kill", "prog_seed": base + i, "gen": self.gen, "pattern": {"p": "async_kill"}}
